@@ -83,4 +83,5 @@ class Function:
         return self._subroutine_caller_blocks[subroutine]
 
     def return_point_blocks(self, subroutine: "Subroutine") -> List["BasicBlock"]:
-        return self._subroutine_return_point_blocks[subroutine]
+        # `retsub` outside of any subroutine (in the main code) has no return point
+        return self._subroutine_return_point_blocks.get(subroutine, [])
